@@ -5,7 +5,12 @@
    and covariance(tensor named (n0 n1), fd) | (14 4 ty route (n0 n1) rows fd) one covariance route only (0 rows,
    1 columns, 2 tensor; tall / wide data) | (14 5 ty (x ..)) softmax | (14 6 ty p r) f1_score |
    (14 7 ((m e) ..)) float oracle: softmax over the f64 values m*10^e must have the same length, be
-   finite and non-negative, sum to one within 1e-9 and preserve order (expected (1 1 1 1))"""
+   finite and non-negative, sum to one within 1e-12 and preserve order (expected (1 1 1 1))
+   FLOAT tier (fty 0 = f64, 1 = f32; numbers (m e) = decimal m * 10^e), references = the population
+   formulas evaluated exactly on the rounded inputs, expected all ones:
+   (14 8 fty (x ..)) mean / variance (mean-ok variance-ok forms-agree) | (14 9 fty rows) covariance
+   (values-ok symmetric diagonal-is-variance routes-agree) | (14 10 fty p r) f1 (value-ok) |
+   (14 11 fty (x ..)) softmax (length finite-nonneg sums-to-one order closed-form)"""
 import itertools
 from tools.vlib import sx
 
@@ -153,12 +158,129 @@ def gen(tier, rng):
         for _ in range(150 if quick else 5000):
             yield sx([14, 6, ty, rnd(ty, rng, True), rnd(ty, rng, True)])
 
+    # ---- float tier (f64 / f32 against the exactly evaluated population formulas)
+    yield from _float_stats(rng, quick)
+    yield from _float_cov(rng, quick)
+    yield from _float_f1(rng, quick)
+    yield from _float_softmax(rng, quick)
+
+
+# ---------------------------------------------------------------- float tier (ops 8 - 11)
+def _noise(rng, digits=3):
+    return rng.randrange(-10 ** digits, 10 ** digits + 1)
+
+
+def _column(rng, fty, n, style):
+    """n numbers (m e) of one feature"""
+    if style == "ints":
+        return [[rng.randrange(-9, 10), 0] for _ in range(n)]
+    if style == "offset":
+        # a large common offset plus noise of order 1 (three decimals): the case where a one-pass
+        # E[x^2] - E[x]^2 loses every digit and the two-pass code none
+        off = rng.choice([10 ** 8, 10 ** 8, -10 ** 8, 10 ** 10, 3 * 10 ** 12] if fty == 0 else [10 ** 4, -10 ** 4, 3 * 10 ** 4])
+        return [[off * 1000 + _noise(rng), -3] for _ in range(n)]
+    if style == "offset-int":
+        off = rng.choice([10 ** 15, -10 ** 14] if fty == 0 else [10 ** 6, -2 * 10 ** 6])
+        return [[off + rng.randrange(-5, 6), 0] for _ in range(n)]
+    if style == "mixed":
+        return [[rng.randrange(-999, 1000), rng.choice([-6, -3, -1, 0, 2, 5])] for _ in range(n)]
+    if style == "huge":
+        return [[rng.randrange(-999, 1000), 147 if fty == 0 else 15] for _ in range(n)]
+    if style == "small":
+        return [[rng.randrange(-999, 1000), -100 if fty == 0 else -15] for _ in range(n)]
+    return [[rng.randrange(-10 ** 6, 10 ** 6), -6] for _ in range(n)]
+
+
+STYLES = ("ints", "offset", "offset", "offset-int", "mixed", "huge", "small", "unit")
+
+
+def _float_stats(rng, quick):
+    for fty in (0, 1):
+        for style in STYLES:
+            for n in (1, 2, 3, 5, 8, 13, 50):
+                yield sx([14, 8, fty, _column(rng, fty, n, style)])
+        for n in (255, 300, 513):
+            yield sx([14, 8, fty, _column(rng, fty, n, "offset")])
+            yield sx([14, 8, fty, _column(rng, fty, n, "unit")])
+        # a constant list: variance exactly representable as 0 only if the mean is exact
+        yield sx([14, 8, fty, [[5, -1]] * 8])
+        yield sx([14, 8, fty, [[1, 8 if fty == 0 else 4]] * 16])
+        for _ in range(80 if quick else 3000):
+            yield sx([14, 8, fty, _column(rng, fty, rng.randrange(1, 20), rng.choice(STYLES))])
+
+
+def _float_cov(rng, quick):
+    for fty in (0, 1):
+        for _ in range(90 if quick else 2500):
+            r, c = rng.randrange(1, 7), rng.randrange(1, 7)
+            style = rng.choice(("ints", "offset", "offset", "offset-int", "mixed", "unit", "per-feature"))
+            if style == "per-feature":
+                # column features with very different offsets and scales
+                cols = [_column(rng, fty, r, rng.choice(("ints", "offset", "offset-int", "unit", "mixed"))) for _ in range(c)]
+                rows = [[cols[j][i] for j in range(c)] for i in range(r)]
+            else:
+                rows = [_column(rng, fty, c, style) for _ in range(r)]
+            yield sx([14, 9, fty, rows])
+        for (r, c) in ((60, 2), (2, 60), (40, 3)):
+            yield sx([14, 9, fty, [_column(rng, fty, c, "offset") for _ in range(r)]])
+
+
+def _float_f1(rng, quick):
+    grid = [[0, 0], [1, -6], [1, -3], [25, -2], [5, -1], [333333, -6], [9, -1], [1, 0], [999999, -6]]
+    for fty in (0, 1):
+        for p in grid:
+            for r in grid:
+                yield sx([14, 10, fty, p, r])
+        for _ in range(40 if quick else 2000):
+            yield sx([14, 10, fty, [rng.randrange(0, 10 ** 6 + 1), -6], [rng.randrange(0, 10 ** 6 + 1), -6]])
+        yield sx([14, 10, fty, [3, 0], [7, 0]])
+        yield sx([14, 10, fty, [1, 3], [1, -3]])
+
+
+def _float_softmax(rng, quick):
+    for fty in (0, 1):
+        big = (300, 305, 306) if fty == 0 else (30, 35, 36)
+        for _ in range(150 if quick else 5000):
+            n = rng.choice([1, 2, 3, 4, 6, 9, 12])
+            style = rng.random()
+            vals = []
+            for _ in range(n):
+                if style < 0.35:
+                    vals.append([rng.randrange(-9999, 10000), rng.choice([-3, -2, -1, 0])])     # |x| < 10^4
+                elif style < 0.6:
+                    vals.append([rng.randrange(-999, 1000), rng.choice([-3, 0, 2, 5, 20] + list(big[:2]))])
+                elif style < 0.8:
+                    vals.append([rng.choice([-1, 1]) * rng.randrange(1, 170), rng.choice(list(big) + [-30, 0])])
+                else:
+                    vals.append([10 ** 9 + rng.randrange(-3000, 3000), -3] if fty == 0 else [10 ** 5 + rng.randrange(-3000, 3000), -2])
+            if n > 1 and rng.random() < 0.3:
+                vals[rng.randrange(n)] = vals[rng.randrange(n)]
+            yield sx([14, 11, fty, vals])
+        yield sx([14, 11, fty, []])
+        # the boundaries of exp: overflow at 709.78 (f64) / 88.72 (f32), underflow to subnormals and
+        # to zero at -708.4 / -745.13 (f64), -87.3 / -103.97 (f32); the extreme magnitudes
+        edges = ([[70978, -2], [710, 0], [745, 0], [746, 0], [800, 0], [70839, -2]] if fty == 0
+                 else [[8872, -2], [89, 0], [10397, -2], [104, 0], [120, 0], [8733, -2]])
+        for e_ in edges:
+            yield sx([14, 11, fty, [e_, [0, 0]]])
+            yield sx([14, 11, fty, [[-e_[0], e_[1]], [0, 0]]])
+            yield sx([14, 11, fty, [[0, 0], e_, [-e_[0], e_[1]], [1, 0]]])
+        top = [17, 307] if fty == 0 else [34, 37]
+        yield sx([14, 11, fty, [top, [-top[0], top[1]]]])
+        yield sx([14, 11, fty, [top, top, top]])
+        yield sx([14, 11, fty, [[-top[0], top[1]]] * 4 + [[0, 0]]])
+        yield sx([14, 11, fty, [[1, 308 if fty == 0 else 38], [-1, 308 if fty == 0 else 38], [0, 0]]])
+        for n in (255, 513):
+            yield sx([14, 11, fty, [[rng.randrange(-50, 51), rng.choice([0, 1])] for _ in range(n)]])
+
 
 def nontrivial(case, model_out):
     """a statistic of at least two values / a covariance with at least two features and two
     samples whose tensor route was accepted / a softmax of at least two values / any f1"""
     from tools.vlib import parse_sx
     t = parse_sx(case)
+    if t[1] in (8, 9, 10, 11):
+        return True
     if t[1] == 7:
         return len(t[2]) >= 2
     if t[1] in (1, 2, 5):
